@@ -23,14 +23,16 @@ EXTENDS Naturals, Sequences, FiniteSets, TLC
 CONSTANTS NCalls          \* number of requests the client writes
 Calls == 1..NCalls
 
-Kinds == {"ok", "usage", "internal", "unknown", "hidden", "badargs", "garbage", "oversize", "close"}
+\* "intcancel": the procedure ends with a cancellation raised inside the director (e.g. it awaited a
+\* future that another call cancelled) while the connection is healthy
+Kinds == {"ok", "usage", "internal", "intcancel", "unknown", "hidden", "badargs", "garbage", "oversize", "close"}
 \* what the client must observe for a call of each kind
 Expected(k) == CASE k = "ok" -> "result"
                  [] k = "usage" -> "usage_error"          \* same user-facing class
-                 [] k = "internal" -> "remote_error"       \* generic remote-call error
+                 [] k \in {"internal", "intcancel"} -> "remote_error"   \* generic remote-call error
                  [] k \in {"unknown", "hidden", "badargs"} -> "remote_error"
                  [] OTHER -> "none"
-Runs(k) == k \in {"ok", "usage", "internal"}               \* the procedure body is entered
+Runs(k) == k \in {"ok", "usage", "internal", "intcancel"}               \* the procedure body is entered
 
 VARIABLES kind,       \* call -> kind (chosen initially)
           units,      \* call -> number of wire units of its message (2 header + body units)
